@@ -473,8 +473,31 @@ def check_level_order_checks(ctx, F, rule="E-DDDMP.order"):
                         found.append(rv["o"])
                     elif "level" in oa:
                         found.append({"Lt": "Gt", "Gt": "Lt", "Le": "Ge", "Ge": "Le"}.get(rv["o"], rv["o"]))
+        # every such comparison rejects on its own: from its true edge the node creation (reduce / then_insert) of the
+        # same iteration is unreachable (`a || b` -- not `a && b` -- for the two children of a binary record)
+        heads = {i for i, t in B.calls() if (cfg.callee_name(t) or "").endswith("::next")}
+        creators = {i for i, t in B.calls() if re.search(r"::reduce$|::then_insert$", cfg.callee_name(t) or "")}
+        leaks = 0
+        for i in sorted(B.reach):
+            b = m["blocks"][i]
+            t = b["t"]
+            if b["c"] or t["k"] != "switch":
+                continue
+            d = cfg.op_place(t["d"])
+            for s in b["s"]:
+                rv = s.get("rv") or {}
+                if s.get("lhs") == d and rv.get("k") == "bin" and rv.get("o") in ("Ge", "Le", "Gt", "Lt"):
+                    os_ = [(cfg.callee_name(o[1]) or "").rsplit("::", 1)[-1] for x in ("a", "b") for o in origins(B, m, [rv.get(x)]) if o[0] == "call"]
+                    if "level" in os_:
+                        if creators & B.reachable_from(t["o"], avoid=tuple({i} | heads)):
+                            leaks += 1
         n += 1
-        ok = len(found) == cnt and all(o == "Ge" for o in found)
+        ok = len(found) == cnt and all(o == "Ge" for o in found) and bool(creators) and not leaks
+        if leaks and len(found) == cnt and all(o == "Ge" for o in found):
+            ctx.ob(rule, "%s:%s" % (rule, fn_), False,
+                   "%s (%s): %d level comparison(s) do not reject on their own -- the node is still created when the comparison holds "
+                   "(`&&` instead of `||` between the children's checks?)" % (fn_, F.where(fid), leaks))
+            continue
         ctx.ob(rule, "%s:%s" % (rule, fn_), ok,
                "%s (%s): %s" % (fn_, F.where(fid), "rejects level >= child level (%d comparison(s))" % cnt if ok else
                                 "the node's level is compared with its children's levels by %r, expected %d x `>=` (reject a child on "
@@ -654,4 +677,85 @@ def check_import_callers(ctx, F, rule="E-DDDMP.callers"):
                                 "derives import()'s variable mapping from DumpHeader::support_vars() (the .ids list in variable order) instead of "
                                 "support_var_order(): after any reordering the imported functions are over permuted variables"))
     ctx.floor(rule, "callers of dddmp::import outside oxidd-dump", n, 2)
+    return n
+
+
+def check_replacing_flag(ctx, F, rule="E-DDDMP.ctrlflag"):
+    """`write_replacing_control(writer, s)` writes `s` with every ASCII control character replaced by a space and returns
+    whether it replaced anything -- the flag the exporter turns into the strict-mode error for diagram names.  Interpreted
+    on model strings: "ab" -> writes "ab", false; "a\\x01b" -> "a b", true; "\\x02" -> " ", true; "" -> "", false;
+    "a\\nb\\tc" -> "a b c", true."""
+    import tables
+    from lib.interp import Enum, Interp, Return, enumerate_runs
+    from tables import OK, ERR
+    fid = next((f for f in F.hir if f.startswith(EXP) and f.endswith("write_replacing_control")), None)
+    if not ctx.anchor(rule, "export::write_replacing_control", fid is not None):
+        return 0
+
+    class W:
+        def __init__(self):
+            self.out = []
+
+    class It_:
+        def __init__(self, items):
+            self.items = list(items)
+
+    class D(tables.DDDomain):
+        finite_loops = True
+        loop_limit = 16
+
+        def __init__(self):
+            super().__init__(F, tables.BDD)
+
+        def iterate(self, it, src):
+            return src.items if isinstance(src, It_) else list(src) if isinstance(src, (list, tuple)) else None
+
+        def try_(self, it, v):
+            if isinstance(v, Enum) and v.path == OK:
+                return v.args[0]
+            if isinstance(v, Enum) and v.path == ERR:
+                raise Return(v)
+            return super().try_(it, v)
+
+        def call(self, it, name, f, args_e, env, e):
+            if f.get("n", "").endswith("IntoIterator::into_iter"):
+                return [it.ev(a, env) for a in args_e][0]
+            return super().call(it, name, f, args_e, env, e)
+
+        def method(self, it, m, e, env):
+            name = m.rsplit("::", 1)[-1]
+            recv = it.recv(e, env)
+            if isinstance(recv, str):
+                if name == "as_bytes":
+                    return list(recv.encode("latin-1"))
+                return super().method(it, m, e, env)
+            if isinstance(recv, list):
+                if name == "iter":
+                    return It_(recv)
+                if name == "len":
+                    return len(recv)
+            if isinstance(recv, It_) and name == "enumerate":
+                return It_(list(enumerate(recv.items)))
+            if isinstance(recv, int) and name == "is_ascii_control":
+                return recv < 32 or recv == 127
+            if isinstance(recv, W) and name == "write_all":
+                (b,) = it.args(e, env)
+                recv.out.append(bytes(b) if isinstance(b, (list, tuple)) else b.encode("latin-1") if isinstance(b, str) else b)
+                return Enum(OK, [()])
+            return super().method(it, m, e, env)
+    fails = []
+    n = 0
+    for text, out, flag in (("ab", b"ab", False), ("a\x01b", b"a b", True), ("\x02", b" ", True), ("", b"", False), ("a\nb\tc", b"a b c", True)):
+        n += 1
+        w = W()
+        outs = list(enumerate_runs(lambda o: Interp(F, D(), o), lambda it: it.call_fn(fid, [w, text])))
+        if len(outs) != 1 or outs[0][1][0] != "ok":
+            fails.append("not interpretable for %r: %r" % (text, outs[0][1] if outs else None))
+            break
+        val = outs[0][1][1]
+        got = b"".join(x if isinstance(x, bytes) else bytes([x]) for x in w.out)
+        if got != out or not (isinstance(val, Enum) and val.path == OK and val.args[0] is flag):
+            fails.append("%r is written as %r with result %r, expected %r and Ok(%s)" % (text, got, val, out, str(flag).lower()))
+    ctx.ob(rule, rule, not fails, "write_replacing_control (%s): %s" % (F.where(fid), " || ".join(fails[:3]) if fails else
+           "control characters become spaces, the flag is true exactly when one was replaced"))
     return n
